@@ -159,6 +159,16 @@ def build(s):
         return lg
     if k == "complex":
         return complex(_f(s["v"][0]), _f(s["v"][1]))
+    if k == "obj" and s["cls"] == "Hybrid":
+        o = qsim_models.Hybrid()
+        torch.manual_seed(int(s.get("fill", 0)) % (2 ** 31))
+        o.lin = torch.nn.Linear(2, 2)
+        o._p1 = torch.nn.Parameter(torch.randn(3))
+        if s.get("buffer"):
+            o.register_buffer("buf", torch.arange(4.0))
+        for name, sub in s["attrs"]:
+            setattr(o, name, build(sub))
+        return o
     if k == "obj":
         cls = qsim_models.CLASSES[s["cls"]]
         o = cls.__new__(cls)
@@ -203,6 +213,42 @@ def equal(exp, got, d: Diff | None = None, path="$", numeric_mode=False) -> Diff
     d = Diff() if d is None else d
     from quantem.core.io.serialize import AutoSerialize
 
+    # ---- AutoSerialize + nn.Module hybrids: state_dict, behaviour and plain attributes
+    if isinstance(exp, AutoSerialize) and isinstance(exp, torch.nn.Module):
+        if type(got) is not type(exp):
+            d.add("class", path, f"{type(exp).__name__}->{type(got).__name__}")
+            return d
+        try:
+            sa, sb = exp.state_dict(), got.state_dict()
+        except Exception as e:
+            d.add("hybrid_state_dict_raised", path, repr(e))
+            return d
+        if list(sa) != list(sb):
+            d.add("hybrid_state_keys", path, f"{list(sa)}->{list(sb)}")
+            return d
+        for k_ in sa:
+            if sa[k_].dtype != sb[k_].dtype or sa[k_].shape != sb[k_].shape or not torch.equal(
+                    sa[k_], sb[k_]):
+                d.add("hybrid_state_value", f"{path}.{k_}")
+        internal = set(vars(torch.nn.Module())) | {"training"}
+        en = {n for n in vars(exp) if n not in internal}
+        gn = {n for n in vars(got) if n not in internal}
+        if en != gn:
+            d.add("attr_names_extra" if gn - en else "attr_names_missing", path,
+                  f"+{sorted(gn - en)} -{sorted(en - gn)}")
+        for n in sorted(en & gn):
+            equal(vars(exp)[n], vars(got)[n], d, f"{path}.{n}")
+        if bool(exp.training) != bool(getattr(got, "training", None)):
+            d.add("hybrid_training_flag", path)
+        try:
+            x = torch.ones(1, 2)
+            if not torch.equal(exp(x), got(x)):
+                d.add("hybrid_forward_differs", path)
+            if sum(1 for _ in got.parameters()) != sum(1 for _ in exp.parameters()):
+                d.add("hybrid_parameter_count", path)
+        except Exception as e:
+            d.add("hybrid_forward_raised", path, repr(e))
+        return d
     # ---- AutoSerialize objects
     if isinstance(exp, AutoSerialize):
         if type(got) is not type(exp):
@@ -571,8 +617,20 @@ def _py_eq(a, b):
         return False
 
 
+def gen_hybrid(rng, opts):
+    names = rng.subset(["alpha", "beta", "meta", "arr", "note"], 0.5, 1)
+    simple = {"kinds": [k for k in opts["kinds"] if k in ("int", "float", "bool", "none", "str", "nd",
+                                                           "numseq", "list", "tuple")] or ["int"],
+              "regime": "tiny", "maxdepth": 1}
+    attrs = [[n, gen_value(rng, simple, 1, [4])] for n in names]
+    return {"k": "obj", "cls": "Hybrid", "fill": rng.randrange(1000), "buffer": rng.chance(0.4),
+            "attrs": attrs}
+
+
 def gen_obj(rng, opts, depth=0, budget=None, cls=None, nattrs=None):
     budget = budget if budget is not None else [opts.get("nodes", 24)]
+    if cls is None and "module" in opts["kinds"] and rng.chance(0.12):
+        return gen_hybrid(rng, opts)
     cls = cls or rng.weighted([("Plain", 4), ("Node", 3), ("Leaf", 2), ("Other", 1),
                                ("AttrsLike", 1)])
     if cls == "AttrsLike":
